@@ -20,7 +20,8 @@ EXTENDS Obs
 IsH2(o) == o.cfg.carrier \in {"h2", "h2prior"}
 OpenApps(o) == {a \in DOMAIN o.apps : App(o, a).started > 0 /\ App(o, a).done = "" /\ Wire(o, a).ends = 0
                                       /\ App(o, a).disc = 0}
-Served(o) == Cardinality({a \in DOMAIN o.apps : App(o, a).started > 0 /\ App(o, a).kind # "lifespan"})
+\* (requests of the client; streams the server pushed on its own account are not "requests served")
+Served(o) == Cardinality({a \in DOMAIN o.apps : App(o, a).started > 0 /\ App(o, a).kind # "lifespan" /\ Req(o, a).known})
 
 Clauses(o, ev, o2) ==
     CASE ev.e = "app_start" ->
